@@ -19,9 +19,12 @@ RULE = ("(a) api: sequences of 1-5 public coroutines (read_device_info, read_run
         "register contents, under C04's fault alphabet plus OS-level errors (send errors, ICMP errors, socket-creation "
         "errors, connect failures; errno in {ECONNREFUSED, ENETUNREACH, EHOSTUNREACH, ECONNRESET}), including errors "
         "that arrive while a kept-alive socket is idle; (b) ident: connect()/discover()/read_device_info() against "
-        "peers whose identification blocks are arbitrary checksum-valid bytes (non-ASCII, NUL, UTF-16-looking); "
+        "peers whose identification blocks are arbitrary checksum-valid bytes (non-ASCII, NUL, UTF-16-looking), and "
+        "search_inverters() on a silent network (must be RequestFailedException, not the protocol-level "
+        "MaxRetriesException); "
         "(c) count: ALL success/failure histories of length 8 (256) x family x transport on one inverter object plus "
-        "all histories of length 5 over {answered, silent, socket error} + seeded histories with rejections.  Oracles: escaping exception is an InverterError (ValueError accepted only "
+        "all histories of length 5 over {answered, silent, socket error} (every fifth with 'only garbage comes back' "
+        "in place of silence: that is a failure, not a refusal) + seeded histories with rejections and garbage.  Oracles: escaping exception is an InverterError (ValueError accepted only "
         "from single-value read_sensor/read_setting and the getters built on them); the loop's exception handler "
         "received nothing; consecutive_failures_count == failures since the last success.  Non-trivial: a fault "
         "fired / non-ASCII identification / a history with a failure.")
@@ -78,9 +81,11 @@ def make_case(tier, seed, index):
             hist = []
             for j in range(5):
                 hist.append(["ok", "fail", "fail_err"][x % 3])
+                x //= 3
             if bits % 5 == 0:
                 hist = [("fail_garbage" if h == "fail" else h) for h in hist]
-                x //= 3
+            elif bits % 5 == 1 and tr == "udp":
+                hist = [("fail_badexc" if h == "fail" else h) for h in hist]
         return {"kind": "count", "family": fam, "transport": tr, "history": hist, "keep_alive": bool(bits & 1) ^ (fam == "DT"),
                 "timeout": 0.5, "retries": 1}
     i -= n_count_sweep()
@@ -301,6 +306,13 @@ def run_count(case):
             elif h == "fail_garbage":
                 # nothing but garbage comes back: no valid answer was obtained (a failure, not a refusal)
                 world.net.begin_script([], {"k": "garbage", "n": 12, "seed": len(recs) + 1})
+            elif h == "fail_badexc":
+                # every answer is damaged in flight so that its checksum is wrong and its function byte has the high
+                # bit set (a damaged exception frame / a read answer with 03 -> 83): not a refusal by the inverter
+                if len(recs) % 2:
+                    world.net.begin_script([], {"k": "exc", "code": 2, "ops": [["flip", 6 * 8 + 1]]})
+                else:
+                    world.net.begin_script([], {"k": "mut", "ops": [["flip", 3 * 8 + 7]]})
             elif h == "fail_err":
                 # an OS-level socket error ends the request (UDP: reported through error_received; TCP: every
                 # connect attempt is refused)
@@ -326,10 +338,11 @@ def run_count(case):
             if rec["outcome"] != "result":
                 violations.append(viol(f"C09:count:{fam}:{tr}:ok-failed", f"request {j} (answered) ended {rec['outcome']}"))
             streak = 0
-        elif h in ("fail", "fail_err", "fail_garbage"):
+        elif h in ("fail", "fail_err", "fail_garbage", "fail_badexc"):
             streak += 1
             if rec["outcome"] != "failed":
-                why = {"fail": "silent peer", "fail_err": "socket error", "fail_garbage": "only garbage received"}[h]
+                why = {"fail": "silent peer", "fail_err": "socket error", "fail_garbage": "only garbage received",
+                       "fail_badexc": "only checksum-damaged exception-looking frames received"}[h]
                 violations.append(viol(f"C09:count:{fam}:{tr}:not-failed:{h}",
                                        f"request {j} ({why}) ended {rec['outcome']} {rec.get('exc')!r}, expected "
                                        f"RequestFailedException"))
